@@ -47,6 +47,9 @@ pub struct AcceptCfg {
     pub accept_pause: (Us, Us),
     /// Abandon: accept futures created and dropped at this time
     pub cancelled_accepts: Option<(Us, usize)>,
+    /// accept calls polled once (the request reaches the dispatcher's channel) and dropped before
+    /// the dispatcher runs: (time, how many). The dispatcher then meets acceptors nobody waits on.
+    pub instant_abandons: Option<(Us, usize)>,
     /// Abandon: (time, client, how many) connects whose SYNs the network eats; dropped 100 ms later
     pub hanging_connects: Option<(Us, usize, usize)>,
     /// Limit: connections held open; which one is released when
@@ -57,7 +60,7 @@ pub struct AcceptCfg {
 impl AcceptCfg {
     pub fn describe(&self) -> String {
         format!(
-            "{:?} listener[{}] clients={} connects={:?} raw_syns={} {:?} accept_start={}us acceptors={} pause={:?} cancelled_accepts={:?} hanging_connects={:?} limit={:?} end={}us",
+            "{:?} listener[{}] clients={} connects={:?} raw_syns={} {:?} accept_start={}us acceptors={} pause={:?} cancelled_accepts={:?} instant_abandons={:?} hanging_connects={:?} limit={:?} end={}us",
             self.shape,
             self.listener.describe(),
             self.n_clients,
@@ -68,6 +71,7 @@ impl AcceptCfg {
             self.acceptors,
             self.accept_pause,
             self.cancelled_accepts,
+            self.instant_abandons,
             self.hanging_connects,
             self.limit,
             self.end
@@ -289,6 +293,31 @@ pub async fn accept_scenario(world: Arc<World>, cfg: AcceptCfg, case_seed: u64) 
             w.log.note(format!("{n} accept calls abandoned"));
         }));
     }
+    // accept calls dropped right after their first poll
+    if let Some((at, n)) = cfg.instant_abandons {
+        let w = world.clone();
+        let s = listener.sock.clone();
+        tasks.push(tokio::spawn(async move {
+            w.sleep_us(at).await;
+            for i in 0..n {
+                w.log.api(5_500_000 + i as u32, 1, ApiOp::AcceptCall);
+                // biased: the accept future is polled first (its request goes into the dispatcher's
+                // channel), then the ready branch wins and the future is dropped - all in one go,
+                // before the dispatcher task gets to run
+                tokio::select! {
+                    biased;
+                    r = s.accept() => {
+                        w.log.api(5_500_000 + i as u32, 1, ApiOp::AcceptRet(r.as_ref().map(|s| s.remote_addr()).map_err(|e| e.to_string())));
+                        w.log.note("an accept that was meant to be abandoned completed");
+                        continue;
+                    }
+                    _ = std::future::ready(()) => {}
+                }
+                w.log.api(5_500_000 + i as u32, 1, ApiOp::Cancelled("accept"));
+            }
+            w.log.note(format!("{n} accept calls dropped after their first poll"));
+        }));
+    }
     // Abandon: connects whose SYN never arrives, dropped after 100 ms
     if let Some((at, client, n)) = cfg.hanging_connects {
         let w = world.clone();
@@ -448,6 +477,7 @@ pub fn generate(case_seed: u64) -> (AcceptCfg, FaultPlan, String) {
         acceptors: 1,
         accept_pause: (0, 0),
         cancelled_accepts: None,
+        instant_abandons: None,
         hanging_connects: None,
         limit: None,
         end: 6 * SEC,
@@ -479,6 +509,10 @@ pub fn generate(case_seed: u64) -> (AcceptCfg, FaultPlan, String) {
                 plan.spare_scripted = false;
                 desc += " dup 0.15";
             }
+            if cfg.accept_start > 0 && r.chance(0.5) {
+                // just before accepting starts, with requests waiting in the queue
+                cfg.instant_abandons = Some((cfg.accept_start - MS, r.range(1, 3) as usize));
+            }
         }
         Shape::Backlog => {
             // nobody accepts until the flood is over
@@ -506,6 +540,9 @@ pub fn generate(case_seed: u64) -> (AcceptCfg, FaultPlan, String) {
             }
             if r.chance(0.7) {
                 cfg.hanging_connects = Some((r.range(0, 100) * MS, 0, r.range(1, 4) as usize));
+            }
+            if r.chance(0.5) {
+                cfg.instant_abandons = Some((r.range(0, 600) * MS, r.range(1, 40) as usize));
             }
             // ordinary connects afterwards, including up to 4 from the client whose connects hung
             for _ in 0..r.range(1, 4) {
